@@ -398,14 +398,14 @@ impl Property for C19 {
         }
     }
     fn rule(&self) -> &'static str {
-        "each case k: type code number k mod 120 (O in LDCQ x V in CBMIG x C in NBLDCQ, so every code is rendered 25 / 2000 times per run); one abstract QP model (n<=5 variables, m<=4 constraints, lower-triangle Q0/Qi entries incl. diagonal, default+non-default b0 incl. explicit zeros and entries equal to the default, c_l/c_u/l/u with values at and beyond the file's infinity value (1e20, 1e30 or 10000), equal sides, types section for M/G, names, arbitrary starting points) rendered by the harness's own writer with random layout (comment lines !/#/%, blank lines, trailing commentary, blank or tab separator, case of code and sense keyword) and loaded with qplib::load_file; every 4th case additionally one single-fault text (bad type code / garbage count / negative count / number / index / variable type / sense keyword / truncation). Non-trivial = well-formed text with n >= 1; distinct = fingerprint of the rendered text."
+        "each case k: type code number k mod 120 (O in LDCQ x V in CBMIG x C in NBLDCQ, so every code is rendered 25 / 2000 times per run); one abstract QP model (n<=5 variables, m<=4 constraints, lower-triangle Q0/Qi entries incl. diagonal, default+non-default b0 incl. explicit zeros and entries equal to the default, c_l/c_u/l/u with values at and beyond the file's infinity value (1e20, 1e30 or 10000) of either sign on either side, coefficients far below f64::EPSILON (1e-18, 5e-324, 1e-100) among b0 and bi entries, equal sides, types section for M/G, names, arbitrary starting points) rendered by the harness's own writer with random layout (comment lines !/#/%, blank lines, trailing commentary, blank or tab separator, case of code and sense keyword) and loaded with qplib::load_file; every 4th case additionally one single-fault text (bad type code / garbage count / negative count / number / index / variable type / sense keyword / truncation). Non-trivial = well-formed text with n >= 1; distinct = fingerprint of the rendered text."
     }
     fn assumptions(&self) -> Vec<&'static str> {
         vec![
             "expected instance is computed from the abstract model with exact rationals (diagonal entries count half, off-diagonal lower-triangle entries once); never from the text",
             "scope restriction: exactly one separator character (blank or tab) between the tokens of a line and no leading whitespace on data lines (the reader splits entry lines on single whitespace; published files use single blanks)",
-            "all numbers are multiples of 1/4 below 1e6 or the infinity markers 1e20/1e30 and their multiples; every decimal rendering used denotes the value exactly (or rounds to it for 1e30)",
-            "variables are compared as value domains: binary = {0,1} within [l,u], integer [0,1] == binary; a lower bound is never written as +infinity nor an upper bound as -infinity; no empty domains, c_l <= c_u",
+            "all numbers are multiples of 1/4 below 1e6, tiny coefficients written in shortest round-trip exponent form, or the infinity markers 1e20/1e30 and their multiples; every decimal rendering used denotes the value exactly (or rounds to it for 1e30)",
+            "variables are compared as value domains: binary = {0,1} within [l,u], integer [0,1] == binary; an infinite bound or side is sometimes written with the unusual sign (lower bound / c_l = +infinity value, upper bound / c_u = -infinity value), which by the statement's magnitude rule also means unbounded; no empty domains among the finite parts",
             "constraint id scheme, generated constraint names and the problem name are recorded, not judged; convexity promised by codes D/C is not checked by anyone",
             "lines with too few tokens or index 0 are provoked rarely and only counted (observations short-line-or-zero-index:*)",
             "each non-default list names an index at most once",
